@@ -4,7 +4,9 @@
 // ---- rpki::rtr payload types (opaque) and enums (public variants)
 #[verifier::external_body] #[derive(Clone, Copy)] pub struct RouteOrigin { _opaque: u8 }
 #[verifier::external_body] pub struct RouterKey { _opaque: () }
-#[verifier::external_body] pub struct Aspa { _opaque: () }
+// rpki::rtr::payload::Aspa (two public fields)
+#[verifier::external_body] #[derive(Clone, Copy)] pub struct Asn { _opaque: u32 }
+pub struct Aspa { pub customer: Asn, pub providers: ProviderAsns }
 #[verifier::external_body] pub struct ProviderAsns { _opaque: () }
 #[verifier::external_body] #[derive(Clone, Copy)] pub struct Serial { _opaque: u32 }
 
@@ -165,3 +167,40 @@ pub assume_specification<T> [std::option::Option::<T>::or] (_0: std::option::Opt
     where T: std::marker::Destruct,
     ensures r == (if _0 is Some { _0 } else { _1 }),
 ;
+
+// ---- C18, inside one item: fragments of rendered text. Rule R2t replaces every
+// `write!(vec, "LITERAL", ..)` by `write_tagged(vec, TAG)` where TAG identifies the format
+// literal (hash of its source text): the text stays opaque, but WHICH literal is written,
+// how often and in which order is decided. `frags` is the fragment view of a byte buffer.
+pub enum Frag { Comma, Lit(u64) }
+pub uninterp spec fn frags(bytes: Seq<u8>) -> Seq<Frag>;
+
+#[verifier::external_body]
+pub fn write_tagged(sink: &mut Vec<u8>, tag: u64)
+    ensures frags(final(sink)@) == frags(old(sink)@).push(Frag::Lit(tag)),
+{ unimplemented!() }
+
+// ASSUMED: a pushed b',' is a comma fragment
+pub broadcast axiom fn axiom_frags_comma(s: Seq<u8>)
+    ensures #[trigger] frags(s.push(44u8)) == frags(s).push(Frag::Comma);
+
+impl ProviderAsns {
+    // the provider ASNs in order
+    pub uninterp spec fn asns_spec(&self) -> Seq<Asn>;
+    #[verifier::external_body]
+    pub fn iter(&self) -> (r: ProviderAsnsIter<'_>)
+        ensures r.remaining() == self.asns_spec(), r.obeys_prophetic_iter_laws(), r.decrease() is Some,
+    { unimplemented!() }
+    #[verifier::external_body]
+    pub fn asn_count(&self) -> (r: u16) ensures r == self.asns_spec().len(),
+    { unimplemented!() }
+    #[verifier::external_body]
+    pub fn is_empty(&self) -> (r: bool) ensures r == (self.asns_spec().len() == 0),
+    { unimplemented!() }
+}
+#[verifier::external_body] pub struct ProviderAsnsIter<'a> { _p: &'a ProviderAsns }
+impl<'a> Iterator for ProviderAsnsIter<'a> {
+    type Item = Asn;
+    #[verifier::external_body]
+    fn next(&mut self) -> Option<Asn> { unimplemented!() }
+}
